@@ -1614,6 +1614,11 @@ impl Fsm {
                 self.tracer.enter_method("externalQueue.dequeue");
                 loop {
                     let externalEventTmp = externalQueue_receiver.lock().unwrap().recv().unwrap();
+                    #[cfg(feature = "Verif_Hooks")]
+                    self.tracer.trace(&format!(
+                        "verif raw {:?} {:?}",
+                        externalEventTmp.name, externalEventTmp.invoke_id
+                    ));
                     if externalEventTmp.name.starts_with(EVENT_DONE_INVOKE_PREFIX) {
                         externalEvent = externalEventTmp;
                         break;
@@ -1632,6 +1637,8 @@ impl Fsm {
                                 externalEvent = externalEventTmp;
                                 break;
                             } else {
+                                #[cfg(feature = "Verif_Hooks")]
+                                self.tracer.trace(&format!("verif dropped {:?}", externalEventTmp.name));
                                 #[cfg(feature = "Debug")]
                                 debug!(
                                     "Ignore event {} from invoke {}",
@@ -1706,6 +1713,8 @@ impl Fsm {
                         // TODO: Clarify, communication error?
                     }
                     Some(session) => {
+                        #[cfg(feature = "Verif_Hooks")]
+                        self.tracer.trace(&format!("verif forward {:?} {:?}", invokeId, externalEvent.name));
                         match session.sender.send(externalEvent.clone()) {
                             Ok(_) => {}
                             Err(_) => {
@@ -1768,6 +1777,10 @@ impl Fsm {
             }
 
             let mut session_id_list = Vec::new();
+            #[cfg(feature = "Verif_Hooks")]
+            for invoke_id in get_global!(datamodel).child_sessions.keys() {
+                self.tracer.trace(&format!("verif cancelinv {:?}", invoke_id));
+            }
             for session in get_global!(datamodel).child_sessions.values() {
                 session_id_list.push(session.session_id);
             }
@@ -3042,6 +3055,8 @@ impl Fsm {
     }
 
     fn invoke(&mut self, datamodel: &mut dyn Datamodel, state_id: StateId, inv: &Invoke) {
+        #[cfg(feature = "Verif_Hooks")]
+        self.tracer.trace(&format!("verif invoke {} {}", state_id, inv.doc_id));
         // W3C: if the evaluation of its arguments produces an error, the SCXML Processor must
         // terminate the processing of the element without further action.
 
@@ -3167,6 +3182,8 @@ impl Fsm {
 
         match result {
             Ok(mut session) => {
+                #[cfg(feature = "Verif_Hooks")]
+                self.tracer.trace(&format!("verif started {:?} {}", invokeId, session.session_id));
                 session.state_id = Some(state_id);
                 session.invoke_doc_id = inv.doc_id;
 
@@ -3184,6 +3201,8 @@ impl Fsm {
     fn cancelInvoke(&mut self, datamodel: &mut dyn Datamodel, invoke_id: &InvokeId, session_id: SessionId) {
         #[cfg(feature = "Trace_Method")]
         self.tracer.enter_method("cancelInvoke");
+        #[cfg(feature = "Verif_Hooks")]
+        self.tracer.trace(&format!("verif cancelinv {:?}", invoke_id));
         get_global!(datamodel).child_sessions.remove(invoke_id);
         datamodel.send(
             SCXML_EVENT_PROCESSOR_SHORT_TYPE,
